@@ -222,6 +222,18 @@ impl<'a> Runner<'a> {
                             if let Some(&g) = h.timers.get(j) { h.release(g); }
                         }
                     }
+                    let race = if let Some(Step::Race(id, od)) = h.env.wake.first().cloned() { h.env.wake.remove(0); let dt = h.env.wakedt; h.tick(dt); Some((id, od)) } else { None };
+                    drop(h);
+                    if let Some((id, od)) = race { self.submit_ctl(id, od); }
+                }
+                Some(Step::Race(id, od)) => { self.submit_ctl(id, od); }
+                Some(Step::FireCtl(i, id)) => {
+                    {
+                        let mut h = self.hub.lock().unwrap();
+                        h.log(format!("T fire {}", i));
+                        if let Some(&g) = h.timers.get(i) { h.release(g); }
+                    }
+                    self.submit_ctl(id, false);
                 }
                 Some(Step::Ctl(id, od)) => { self.submit_ctl(id, od); }
                 Some(Step::CtlPair(id1, od1, id2, od2)) => {
